@@ -70,4 +70,10 @@ C06d C06 GetCopies
 C07d C07 PreorderTruncated
 C15d C15 BigObjectSort
 C17d C17 StreamDecode3
+C05d C05 mapkey
+C11d C11 ArrayShort
+C12d C12 VMNumber
+C14d C14 PreorderSkip
+C18d C18 StreamEncodeIndent
+C19d C19 dec_float32
 TAB
